@@ -273,6 +273,11 @@ func genStep(src, dst string) {
 			}
 		}
 		for _, st := range cc.Body {
+			if _, isSend := st.(*ast.SendStmt); isSend {
+				// the loop answers a caller: between taking the request and sending the reply other parties
+				// may move (the caller may have given up); the lab can hold the handler here
+				fmt.Fprintf(&body, "t.verifYield(%d)\n", i)
+			}
 			printer.Fprint(&body, fset, st)
 			body.WriteString("\n")
 		}
